@@ -207,6 +207,15 @@ func ruleOnErrorSiblings(c *Ctx, r *Rule) {
 				}
 			}
 		}
+		// a method value (p.onRetryError): the bound wrapper calls the method with the same arguments
+		if cl != nil && cl.Synthetic != "" {
+			for _, cj := range callsIn(cl) {
+				if g := cj.Common().StaticCallee(); g != nil && g.Blocks != nil && g.Synthetic == "" && c.inModule(g) {
+					cl = g
+					break
+				}
+			}
+		}
 		if cl == nil {
 			r.Ob(false, name+"|closure", cs.Pos(), "cannot resolve the onError closure")
 			continue
